@@ -1,0 +1,118 @@
+//! Events the engine reports to the runtime (monitors are pure functions of the event log).
+use serde::Serialize;
+
+use crate::network::{Coord, NetworkMessage, ReceiverEndpoint};
+use crate::operator::StreamElement;
+
+use super::{try_rt, Param};
+
+/// `(block, host, replica)`
+pub type C3 = (u64, u64, u64);
+
+/// One stream element as seen on a link.
+#[derive(Clone, Debug, PartialEq, Eq, Hash)]
+pub struct Elem {
+    /// 0 Item, 1 Timestamped, 2 Watermark, 3 FlushBatch, 4 Terminate, 5 FlushAndRestart
+    pub kind: u8,
+    pub ts: Option<i64>,
+    /// bincode of the whole element
+    pub bytes: Vec<u8>,
+}
+
+#[derive(Clone, Debug, PartialEq, Eq, Hash)]
+pub enum Event {
+    /// A batch handed to `NetworkSender::send` (before it is queued).
+    Sent {
+        from: C3,
+        to: C3,
+        prev_block: u64,
+        elems: Vec<Elem>,
+    },
+    /// A batch returned by one of the `NetworkReceiver` receive paths.
+    Received {
+        at: C3,
+        prev_block: u64,
+        from: C3,
+        elems: Vec<Elem>,
+    },
+    WorkerStart(C3),
+    WorkerEnd(C3),
+    /// A virtual listener was bound on this address.
+    Bound(String),
+    /// Unsynchronised access to the loop state: (object id, is_write).
+    StateAccess(usize, bool),
+}
+
+pub fn c3(c: Coord) -> C3 {
+    (c.block_id, c.host_id, c.replica_id)
+}
+
+fn elems<T: Serialize>(msg: &NetworkMessage<T>) -> Vec<Elem> {
+    msg.verif_elements()
+        .iter()
+        .map(|e| {
+            let (kind, ts) = match e {
+                StreamElement::Item(_) => (0, None),
+                StreamElement::Timestamped(_, t) => (1, Some(*t)),
+                StreamElement::Watermark(t) => (2, Some(*t)),
+                StreamElement::FlushBatch => (3, None),
+                StreamElement::Terminate => (4, None),
+                StreamElement::FlushAndRestart => (5, None),
+            };
+            Elem {
+                kind,
+                ts,
+                bytes: bincode::serialize(e).unwrap_or_default(),
+            }
+        })
+        .collect()
+}
+
+pub(crate) fn sent<T: Serialize>(to: ReceiverEndpoint, msg: &NetworkMessage<T>) {
+    if let Some(rt) = try_rt() {
+        if rt.param(Param::ObserveLinks) != 0 {
+            rt.observe(Event::Sent {
+                from: c3(msg.sender()),
+                to: c3(to.coord),
+                prev_block: to.prev_block_id,
+                elems: elems(msg),
+            });
+        }
+    }
+}
+
+pub(crate) fn received<T: Serialize>(at: ReceiverEndpoint, msg: &NetworkMessage<T>) {
+    if let Some(rt) = try_rt() {
+        if rt.param(Param::ObserveLinks) != 0 {
+            rt.observe(Event::Received {
+                at: c3(at.coord),
+                prev_block: at.prev_block_id,
+                from: c3(msg.sender()),
+                elems: elems(msg),
+            });
+        }
+    }
+}
+
+pub(crate) fn event(ev: Event) {
+    if let Some(rt) = try_rt() {
+        rt.observe(ev);
+    }
+}
+
+pub(crate) fn state_access(obj: usize, write: bool) {
+    event(Event::StateAccess(obj, write));
+}
+
+pub(crate) fn selected<A: Send + 'static, B: Send + 'static>(
+    a: &crate::network::NetworkReceiver<A>,
+    b: &crate::network::NetworkReceiver<B>,
+    r: crate::channel::SelectResult<NetworkMessage<A>, NetworkMessage<B>>,
+) -> crate::channel::SelectResult<NetworkMessage<A>, NetworkMessage<B>> {
+    match &r {
+        crate::channel::SelectResult::A(Ok(m)) => a.verif_seen(m),
+        crate::channel::SelectResult::B(Ok(m)) => b.verif_seen(m),
+        _ => {}
+    }
+    r
+}
